@@ -15,6 +15,7 @@ import (
 	"errors"
 	"fmt"
 	"net"
+	"sort"
 	"strconv"
 	"strings"
 	"time"
@@ -195,6 +196,15 @@ func wantFor(cls string, lc locCase) (want []string, consult bool) {
 // address of a TCP connection / the client address of a UDP association fed to the real
 // collectors, and the location label of every gathered sample that has one must be the label of
 // the address's class.
+func sortedKeys(m map[string]bool) []string {
+	var out []string
+	for k := range m {
+		out = append(out, k)
+	}
+	sort.Strings(out)
+	return out
+}
+
 func runLocCollectors(ctx *engine.Ctx, lc locCase) {
 	vrt.SetPassNow(vrt.Epoch)
 	var db *recDB
@@ -227,6 +237,15 @@ func runLocCollectors(ctx *engine.Ctx, lc locCase) {
 		cls = classOf(h)
 	}
 	want, consult := wantFor(cls, lc)
+	// the labels each kind of flow gave this address (a set: connection and tunnel-time metrics may
+	// class a zoned address differently, XA / XL, but TCP and UDP flows must agree with each other)
+	first := map[string]map[string]bool{"tcp": {}, "udp": {}}
+	defer func() {
+		t, u := fmt.Sprint(sortedKeys(first["tcp"])), fmt.Sprint(sortedKeys(first["udp"]))
+		if len(first["tcp"]) > 0 && len(first["udp"]) > 0 && t != u {
+			ctx.Fail("loc-collectors", "location-differs-by-protocol{"+cls+","+lc.DB+"}", fmt.Sprintf("client address %q (%s, db %s): location labels %s as the client of a TCP connection, %s as the client of a UDP association", lc.Addr, cls, lc.DB, t, u), lc, nil)
+		}
+	}()
 	for _, proto := range []string{"tcp", "udp"} {
 		if db != nil {
 			db.calls = nil
@@ -236,13 +255,26 @@ func runLocCollectors(ctx *engine.Ctx, lc locCase) {
 			panic(err)
 		}
 		data := metrics.ProxyMetrics{ClientProxy: 10, ProxyTarget: 5, TargetProxy: 7, ProxyClient: 12}
+		// the client of a TCP connection is reported as a *net.TCPAddr, that of a UDP association as
+		// a *net.UDPAddr (as the sockets do)
+		flowAddr := a
+		switch v := a.(type) {
+		case *net.UDPAddr:
+			if proto == "tcp" {
+				flowAddr = &net.TCPAddr{IP: v.IP, Port: v.Port, Zone: v.Zone}
+			}
+		case *net.TCPAddr:
+			if proto == "udp" {
+				flowAddr = &net.UDPAddr{IP: v.IP, Port: v.Port, Zone: v.Zone}
+			}
+		}
 		if proto == "tcp" {
-			cm := smx.AddOpenTCPConnection(memConn{a})
+			cm := smx.AddOpenTCPConnection(memConn{flowAddr})
 			cm.AddAuthenticated("key-1")
 			vrt.Advance(time.Second)
 			cm.AddClosed("OK", data, time.Second)
 		} else {
-			um := smx.AddUDPNatEntry(a, "key-1")
+			um := smx.AddUDPNatEntry(flowAddr, "key-1")
 			um.AddPacketFromClient("OK", 100, 60)
 			um.AddPacketFromTarget("OK", 80, 120)
 			vrt.Advance(2 * time.Second)
@@ -260,6 +292,7 @@ func runLocCollectors(ctx *engine.Ctx, lc locCase) {
 				continue
 			}
 			labelled++
+			first[proto][got] = true
 			ok := false
 			for _, w := range want {
 				if got == w {
